@@ -132,6 +132,31 @@ def make_case(seed, i):
         for _ in range(r.randint(0, 2)):
             prog.append(["expr", ["load", r.choice(G.NAMES), [r.choice(G.ATTRS)]]])
     if r.random() < .1:
+        # an import whose bound name is spelled like a builtin, and is READ (call / attribute): removing it would silently
+        # fall back to the builtin - no NameError, but the operation log (the bound OBJECT) differs
+        bn = r.choice(["sorted", "max", "open", "zip", "len", "print"])
+        prog.append(r.choice([["from", ["m"], [[bn, None]]], ["from", ["pkg"], [[bn, None], ["c", "bq%d" % len(prog)]]],
+                              ["import", [[["n"], bn]]], ["from", ["pkg", "sub"], [["d", bn]]]]))
+        for _ in range(r.randint(0, 1)):
+            prog.append(["expr", ["load", r.choice(G.NAMES), [r.choice(G.ATTRS)]]])
+        prog.append(["expr", r.choice([["op", "call", [["load", bn, []], ["load", r.choice(G.NAMES), []]]],
+                                       ["load", bn, [r.choice(G.ATTRS)]]])])
+    if r.random() < .1:
+        # a def / async def with a *name / **name parameter spelled like an import's bound name of the enclosing scope;
+        # the first read of that global comes after the def
+        al, fn = "vk%d" % len(prog), "fv%d" % len(prog)
+        P = {"posonly": [], "args": [], "vararg": None, "kwonly": [], "kwarg": None, "defaults": [], "kw_defaults": [],
+             "async": r.random() < .3}
+        P[r.choice(["vararg", "kwarg"])] = [al, None]
+        if r.random() < .4:
+            P["args"] = [[r.choice(G.NAMES), None]]
+        prog.append(r.choice([["from", ["m"], [["d", al]]], ["import", [[["pkg", "sub"], al]]], ["import", [[["n"], al]]]]))
+        prog += [["def", fn, [], P, None, [r.choice([["pass"], ["expr", ["load", al, []]]])]],
+                 ["assign", [["n", fn]], ["op", "call", [["load", G.REG, []], ["load", fn, []]]]]]
+        for _ in range(r.randint(0, 1)):
+            prog.append(["expr", ["load", r.choice(G.NAMES), [r.choice(G.ATTRS)]]])
+        prog.append(["expr", ["load", al, [r.choice(G.ATTRS)]]])
+    if r.random() < .1:
         # a class statement nested in a function; its CLASS-LEVEL statements are the only readers of a top-level import that
         # stands after the def (and before the call: registered functions run after the module)
         fn, cn, al = "fk%d" % len(prog), "kc%d" % len(prog), "ki%d" % len(prog)
